@@ -28,6 +28,7 @@ type qcase struct {
 	path  string
 	data  interface{}
 	tstr  string // canonical string of the truth for the gRPC comparison
+	errOK bool   // a malformed argument (identifier of the wrong length): an error is as good as the empty answer
 }
 
 func reconstruct(v *View, id string) st.Request {
@@ -224,6 +225,10 @@ func queryCases(rig *Rig, sc *Scenario, v *View) []qcase {
 			ctxIDs = append(ctxIDs, id) // a context that does not exist (yet / any more)
 		}
 	}
+	// identifiers of the wrong length that are byte-prefixes / extensions of existing ones: no context, no records
+	for _, id := range v.CtxIDs {
+		ctxIDs = append(ctxIDs, id[:len(id)-2], id+"00")
+	}
 	for _, cid := range ctxIDs {
 		id := cid
 		var rc st.RequestContext
@@ -259,7 +264,7 @@ func queryCases(rig *Rig, sc *Scenario, v *View) []qcase {
 				rs = append(rs, rq.String())
 			}
 			c1 := qcase{kind: "requests-of-batch", arg: fmt.Sprintf("%s/%d", sc.ctxName(id), bc), path: st.QueryRequestsByReqCtx,
-				data: st.QueryRequestsByReqCtxParams{RequestContextID: mustHex(id), BatchCounter: bc}, truth: reqs, tstr: strList(rs)}
+				data: st.QueryRequestsByReqCtxParams{RequestContextID: mustHex(id), BatchCounter: bc}, truth: reqs, tstr: strList(rs), errOK: len(id) != 2*st.ContextIDLen}
 			c1.grpc = func(ctx sdk.Context) (string, error) {
 				r, err := k.RequestsByReqCtx(sdk.WrapSDKContext(ctx), &st.QueryRequestsByReqCtxRequest{RequestContextId: mustHex(id), BatchCounter: bc})
 				if err != nil {
@@ -279,7 +284,7 @@ func queryCases(rig *Rig, sc *Scenario, v *View) []qcase {
 				ps = append(ps, v.Resps[pid].String())
 			}
 			c2 := qcase{kind: "responses-of-batch", arg: fmt.Sprintf("%s/%d", sc.ctxName(id), bc), path: st.QueryResponses,
-				data: st.QueryResponsesParams{RequestContextID: mustHex(id), BatchCounter: bc}, truth: resps, tstr: strList(ps)}
+				data: st.QueryResponsesParams{RequestContextID: mustHex(id), BatchCounter: bc}, truth: resps, tstr: strList(ps), errOK: len(id) != 2*st.ContextIDLen}
 			c2.grpc = func(ctx sdk.Context) (string, error) {
 				r, err := k.Responses(sdk.WrapSDKContext(ctx), &st.QueryResponsesRequest{RequestContextId: mustHex(id), BatchCounter: bc})
 				if err != nil {
@@ -389,7 +394,9 @@ func queryState(rig *Rig, sc *Scenario, s *State) ([]Violation, map[string]int64
 			}
 		} else {
 			wit["C17:present/"+c.kind]++
-			if gerr != nil {
+			if gerr != nil && c.errOK {
+				wit["C17:malformed-argument-refused/"+c.kind]++
+			} else if gerr != nil {
 				add("query-returns-the-stored-record", c.kind, "grpc-error:"+errClass(gerr), fmt.Sprintf("gRPC %s(%s) failed: %v", c.kind, c.arg, gerr))
 			} else if g != c.tstr {
 				add("query-returns-the-stored-record", c.kind, "grpc-differs", fmt.Sprintf("gRPC %s(%s) returned %s, stored %s", c.kind, c.arg, clip(g), clip(c.tstr)))
@@ -416,7 +423,9 @@ func queryState(rig *Rig, sc *Scenario, s *State) ([]Violation, map[string]int64
 			if err != nil {
 				continue
 			}
-			if lerr != nil {
+			if lerr != nil && c.errOK {
+				wit["C17:malformed-argument-refused/"+c.kind]++
+			} else if lerr != nil {
 				add("query-returns-the-stored-record", c.kind, "legacy-error:"+errClass(lerr), fmt.Sprintf("legacy %s(%s) failed: %v", c.kind, c.arg, lerr))
 			} else if !bytes.Equal(want, lbz) && jsonMultiset(want) != jsonMultiset(lbz) {
 				add("query-returns-the-stored-record", c.kind, "legacy-differs", fmt.Sprintf("legacy %s(%s) returned %s, stored %s", c.kind, c.arg, clip(string(lbz)), clip(string(want))))
